@@ -29,8 +29,8 @@ LEVEL_TEXT = ('Partial deductive proof on the real history/times.py: (1) duratio
 LEVEL_NOTE = ('T8: floats as exact reals; rounding to milliseconds as any value within 0.0005 s. The token abstraction of str.format/rstrip is an '
               'assumed model (the text level is bounded). Domain calibrated on this image: only UTC and full-zone-name renderings are parseable '
               '(zoneinfo-based pytz shim, no abbreviation support); ambiguous wall-clock times must be rejected.')
-TECHNIQUE = 'contract on duration._format over an abstract token log + lemmas over timestamp comparison (reals), VCs from the real AST, z3; bounded render/parse over zones, transitions, precisions and duration texts'
-TRUSTED = ['T8 floats as reals', 'cache contracts: render(ms=True) as an uninterpreted function of the value (its frame is the render_frame obligation, AST-decided)', 'str.format / rstrip abstracted to unit tokens (text level only in the bounded tier)', 'zoneinfo / pytz shim, re, datetime are external (T4)']
+TECHNIQUE = 'contract on duration._format over an abstract token log + lemmas over timestamp comparison, contracts on timestamp arithmetic and the rendering cache (reals), VCs from the real AST, z3; bounded render/parse over zones, transitions, precisions and duration texts'
+TRUSTED = ['T8 floats as reals', 'arithmetic contracts: the constructor timestamp(x) by an assumed model (a new timestamp identified with its value)', 'cache contracts: render(ms=True) as an uninterpreted function of the value (its frame is the render_frame obligation, AST-decided)', 'str.format / rstrip abstracted to unit tokens (text level only in the bounded tier)', 'zoneinfo / pytz shim, re, datetime are external (T4)']
 ASSUMPTIONS = ['non-negative durations', 'parseable renderings on this image: UTC default and tzdetail=True full zone names']
 
 T = "history/times.py"
@@ -202,6 +202,46 @@ def cache_specs():
     return out
 
 
+def new_timestamp(eng, ch, args, kw, st, n):
+    """ASSUMED model of the constructor `timestamp(x)` as a callee: a new timestamp is identified with its value - x itself for a number, x.value for a
+    timestamp (timestamp.__init__ copies the value of a timestamp argument)."""
+    from pyvc.vals import RefV
+    if len(args) != 1 or kw:
+        raise Unsupported('timestamp(...) with arguments %r %r' % (args, kw))
+    a = args[0]
+    if isinstance(a, RefV):
+        val = st.heap[(a.id, 'value')]
+        a = val[1] if isinstance(val, tuple) else val
+    yield st, a
+
+
+def replay_arith(model, obligation):
+    from cpppo.history import times
+    for v0 in (1000.25, 1399326141.5, -5.5, 0.0):
+        for step in (0, 0.0, 0.5, -0.25, 3, -7):
+            for name, want in (('+', v0 + step), ('-', v0 - step)):
+                ts = times.timestamp(v0)
+                txt = str(ts)
+                got = ts + step if name == '+' else ts - step
+                if not isinstance(got, times.timestamp) or got is ts or got.value != want or ts.value != v0 or str(ts) != txt or str(got) != str(times.timestamp(want)):
+                    return dict(confirmed=True, function='cpppo.history.times.timestamp.__add__/__sub__', input='timestamp(%r) %s %r' % (v0, name, step),
+                                observed='%r (operand now %r)' % (got, ts), required='a new timestamp of value %r, the operand unchanged' % (want,))
+    return dict(confirmed=False)
+
+
+def arith_specs():
+    """timestamp + number / timestamp - number: a new timestamp of the adjusted value; the operand (value and cached rendering) is untouched"""
+    fields = {'value': 'Real', '_str': ('Union', ['None', 'Str'])}
+    out = []
+    for name, sign in (('__add__', '+'), ('__sub__', '-')):
+        out.append(Spec('timestamp.%s' % name, (T, 'timestamp.%s' % name), params={'rhs': 'Real'}, fields=fields,
+                        ensures=[('the result is a timestamp of the value adjusted by the amount given', 'result == old(self.value) %s rhs' % sign),
+                                 ('the operand keeps its value', 'self.value == old(self.value)')],
+                        raises={}, modifies=[], hints=dict(construct={'timestamp': new_timestamp}), replay=replay_arith,
+                        note='T8: float arithmetic as exact reals; timestamp(x) by its assumed model (a new timestamp is identified with its value)'))
+    return out
+
+
 def order_lemmas(repo):
     a, b, ra, rb = z3.Reals('a b ra rb')
     eps = z3.RealVal('1/1000')
@@ -280,7 +320,7 @@ def replay_render_frame(model, obligation):
 
 
 def contracts(repo):
-    return [format_spec()] + cmp_specs() + cache_specs() + [Custom('render_frame', render_frame, replay=replay_render_frame, targets=[(T, 'timestamp.render'), (T, 'timestamp.datetime_from_number'), (T, 'timestamp.timezone_info')],
+    return [format_spec()] + cmp_specs() + cache_specs() + arith_specs() + [Custom('render_frame', render_frame, replay=replay_render_frame, targets=[(T, 'timestamp.render'), (T, 'timestamp.datetime_from_number'), (T, 'timestamp.timezone_info')],
                                                    note='frame condition decided on the AST of the real timestamp.render / datetime_from_number: no store to self / cls')] + [Custom('order', order_lemmas, note='over the contracts of __lt__/__gt__: lt := a + eps < b, gt := a - eps > b, eq := neither')]
 
 
